@@ -1,8 +1,10 @@
 #!/bin/bash
-# Runs every seeded breaking change against the check of its property (quick tier) and prints a summary line each.
+# Runs every seeded breaking change against the check of its property (quick tier, or the tier its meta.json
+# names) and prints a summary line each.
 cd "$(dirname "$0")/.."
 for d in seeded/*/; do
   id=$(basename $d)
   prop=$(python3 -c "import json;print(json.load(open('$d/meta.json'))['breaks_property'])")
-  tools/seedtest.sh $id $prop quick 2>&1 | head -1
+  tier=$(python3 -c "import json;print(json.load(open('$d/meta.json')).get('tier','quick'))")
+  tools/seedtest.sh $id $prop $tier 2>&1 | head -1
 done
